@@ -3,5 +3,5 @@
 cd /verif
 T=${1:-quick}
 for P in $(python3 -c "import sys; sys.path.insert(0,'tools'); import propcfg; print(' '.join(sorted(propcfg.PROPS)))"); do
-  echo "== $P $(./check $P $T 2>&1 | grep -E 'VIOLATION|^OK|rror' | cut -c1-200 | head -3 | tr '\n' ' ')"
+  echo "== $P $(./check $P $T 2>&1 | grep -E 'VIOLATION|^OK|^error|Error' | cut -c1-200 | head -3 | tr '\n' ' ')"
 done
